@@ -25,13 +25,28 @@
 #include <tbox/base/wrapped_recorder.h>
 
 #include "timer_event_impl.h"
+#ifdef TBOX_VERIF_HOOKS
+#include "verif_hooks.h"
+#endif
 
 namespace tbox {
 namespace event {
 
+#ifdef TBOX_VERIF_HOOKS
+namespace verif {
+namespace { SteadyClockMsFunc _steady_clock_ms_func = nullptr; }
+void SetSteadyClockMs(SteadyClockMsFunc func) { _steady_clock_ms_func = func; }
+SteadyClockMsFunc GetSteadyClockMsFunc() { return _steady_clock_ms_func; }
+}
+#endif
+
 namespace {
 uint64_t GetCurrentSteadyClockMilliseconds()
 {
+#ifdef TBOX_VERIF_HOOKS
+    if (verif::_steady_clock_ms_func != nullptr)
+        return verif::_steady_clock_ms_func();
+#endif
     return std::chrono::duration_cast<std::chrono::milliseconds> \
         (std::chrono::steady_clock::now().time_since_epoch()).count();
 }
